@@ -404,6 +404,9 @@ def run(ctx):
         name = "j%d.cfg" % len(jobs)
         core.write_cfg(os.path.join(d, name), constants=consts, invariants=invs, properties=props)
         kw.setdefault("timeout", 900 if ctx.tier == "quick" else 2400)
+        # the models are small (< 10^6 states): a 2 GB heap keeps TLC's up-front fingerprint
+        # table small, so that ten concurrent JVMs stay below ~10 GB resident
+        kw.setdefault("java_opts", ("-Xmx2g",))
         jobs.append(dict(module=module, cfg=name, cwd=d, label=label, **kw))
         meta.append(kind)
 
@@ -430,24 +433,18 @@ def run(ctx):
     add("Transitions", "model: row-wise transcription exact", "model-pos",
         tr_consts(Variant='"rowwise"', **small), TR_INV + ["KeepPosition", "NeverRaises"], workers=1)
 
-    results = ctx.tlc_parallel(jobs, max_par=10)
+    # quick: everything at once; thorough: in batches, so that the emitted cases of one batch are
+    # replayed and released before the next batch is generated
+    per = len(jobs) if ctx.tier == "quick" else 10
+    st = dict(notes={}, wide=[], n_walks=0, ncols=0, n_tr=0)
+    for s0 in range(0, len(jobs), per):
+        bj, bm = jobs[s0:s0 + per], meta[s0:s0 + per]
+        results = ctx.tlc_parallel(bj, max_par=10)
+        _handle(ctx, report, bj, bm, results, st)
+        del results
 
-    # ---------------- model-level notes
-    notes = {}
-    for j, kind, r in zip(jobs, meta, results):
-        if kind == "model-neg":
-            notes[j["label"]] = "violated (%s)" % r.violated if r.violated else "holds"
-        elif kind == "model-pos":
-            notes[j["label"]] = "holds" if r.ok else "violated (%s)" % r.violated
-    ctx.notes["transitions_model_variants"] = notes
-
-    wide = []
-    for j, kind, r in zip(jobs, meta, results):
-        if kind == "wide":
-            rows = [p for t, p in r.prints if t == "WIDE"]
-            if not rows:
-                raise core.MachineryError("no WIDE summary lines from %s" % j["label"])
-            wide += rows
+    ctx.notes["transitions_model_variants"] = st["notes"]
+    wide = st["wide"]
     dev = [w for w in wide if sum(w["ndev"]) > 0]
     ctx.notes["accepted_buffers_with_self_overlapping_widened_basin"] = {
         "pairs_examined": len({(w["b"], w["buf"]) for w in wide}),
@@ -456,9 +453,25 @@ def run(ctx):
                                                                   default=None) for b in (1, 2)},
         "example": dev[0] if dev else None,
     }
+    ctx.notes["walks_replayed"] = st["n_walks"]
+    ctx.notes["columns_replayed_through_library_callers"] = st["ncols"]
+    ctx.notes["transition_inputs_replayed"] = st["n_tr"]
+
+
+def _handle(ctx, report, jobs, meta, results, st):
+    # ---------------- model-level notes
+    for j, kind, r in zip(jobs, meta, results):
+        if kind == "model-neg":
+            st["notes"][j["label"]] = "violated (%s)" % r.violated if r.violated else "holds"
+        elif kind == "model-pos":
+            st["notes"][j["label"]] = "holds" if r.ok else "violated (%s)" % r.violated
+        elif kind == "wide":
+            rows = [p for t, p in r.prints if t == "WIDE"]
+            if not rows:
+                raise core.MachineryError("no WIDE summary lines from %s" % j["label"])
+            st["wide"] += rows
 
     # ---------------- replay walks
-    n_walks = 0
     groups = {}
     for j, kind, r in zip(jobs, meta, results):
         if kind != "walk":
@@ -492,7 +505,7 @@ def run(ctx):
             g = groups.setdefault(gk, {1: [], 2: [], 3: []})
             if len(g[c["b"]]) < 4000:
                 g[c["b"]].append(c)
-        n_walks += len(cases)
+        st["n_walks"] += len(cases)
 
     glist = []
     for (buf, n), g in sorted(groups.items()):
@@ -501,18 +514,14 @@ def run(ctx):
             part = {str(b): v[s:s + 400] for b, v in g.items() if v[s:s + 400]}
             glist.append({"buf": buf, "n": n, "cases": part})
     res = core.pmap(replay_group, glist, chunk=4)
-    ncols = 0
     for g, bad in zip(glist, res):
-        ncols += sum(len(v) for v in g["cases"].values())
+        st["ncols"] += sum(len(v) for v in g["cases"].values())
         ctx.evaluations += 1
         for key, detail in bad:
             report({"kind": "group", "group": {"buf": g["buf"], "n": g["n"]}, "detail": detail,
                     "how": "phi_/psi_/chi_/all_rotamers with dihedral_angles replaced by the emitted angle table"}, key)
-    ctx.notes["walks_replayed"] = n_walks
-    ctx.notes["columns_replayed_through_library_callers"] = ncols
 
     # ---------------- replay transitions
-    n_tr = 0
     for j, kind, r in zip(jobs, meta, results):
         if kind != "trans":
             continue
@@ -530,8 +539,7 @@ def run(ctx):
             for key, detail in bad:
                 report({"kind": "trans", "case": c, "detail": detail,
                         "how": "disorder.transitions(array) vs Transitions.tla Def"}, key)
-        n_tr += len(cases)
-    ctx.notes["transition_inputs_replayed"] = n_tr
+        st["n_tr"] += len(cases)
 
 
 def replay(ctx, path):
